@@ -516,11 +516,20 @@ NewView(nr, m) ==
   IF IsShort(m) THEN [items |-> <<>>, end |-> "short"]
   ELSE NewWalk(nr, m, 0, HdrLen, QD(m), <<>>)
 
+EdnsView(m, pos) ==
+  IF ~IsEdnsAt(m, pos) THEN [ok |-> FALSE, v |-> <<>>]
+  ELSE LET e == CvEdns(m, pos) IN
+    IF ~e.ok THEN [ok |-> FALSE, v |-> <<>>]
+    ELSE [ok |-> TRUE, v |-> <<e.item[3], e.item[4] \div 256, e.item[4] % 256, e.item[5], e.item[7]>>]
+
 CvOut(x) == [ok |-> x.ok, und |-> x.und, item |-> x.item, next |-> x.next]
 CodecView(nr, m, starts) ==
   [names |-> [i \in 1..Len(starts) |-> CvOut(CvName(nr, m, starts[i]))],
    qs |-> [i \in 1..Len(starts) |-> CvOut(CvQuestion(nr, m, starts[i]))],
    rs |-> [i \in 1..Len(starts) |-> CvOut(CvRecord(nr, m, starts[i]))],
+   \* the EDNS view <<payload size, extended rcode, version, flags, options>> of
+   \* an OPT record with the root owner, whichever way it is obtained
+   edns |-> [i \in 1..Len(starts) |-> EdnsView(m, starts[i])],
    msg |-> NewView(nr, m)]
 
 ---------------------------------------------------------------------------
